@@ -131,6 +131,7 @@ type ReplayFile struct {
 	Labels    []string          `json:"tape_labels,omitempty"`
 	Trace     []string          `json:"trace,omitempty"`
 	Minimised bool              `json:"minimised"`
+	FromSeed  bool              `json:"from_seed,omitempty"` // tape is regenerated from Seed (the process crashed before a tape was saved)
 	OrigLen   int               `json:"original_tape_len,omitempty"`
 	Extra     map[string]string `json:"extra,omitempty"`
 	SutCommit string            `json:"sut_commit,omitempty"`
@@ -163,6 +164,7 @@ type Summary struct {
 	HarnessErr  string         `json:"harness_error,omitempty"`
 	Log         []string       `json:"log,omitempty"` // determinism log: one line per run (hash of its trace)
 	Replayed    *Result        `json:"replayed,omitempty"`
+	Crashed     bool           `json:"crashed,omitempty"` // set by the driver: the worker process died in the system under test
 	FirstSeed   uint64         `json:"first_seed"`
 	LastIndex   int            `json:"last_index"`
 }
@@ -224,6 +226,10 @@ func Main(cfg Config, run RunFunc) {
 			}
 		}
 		tp := tape.Replay(rf.Seed, rf.Tape)
+		if rf.FromSeed {
+			tp = tape.New(rf.Seed) // no tape was saved (the process crashed): regenerate it
+		}
+		fmt.Fprintf(os.Stderr, "VSIM-RUN idx=%d seed=%d\n", rf.RunIndex, rf.Seed)
 		res := run(cfg, rf.RunIndex, tp)
 		sum.Runs = 1
 		sum.Replayed = &res
@@ -264,6 +270,10 @@ func Main(cfg Config, run RunFunc) {
 			sum.FirstSeed = seed
 		}
 		tp := tape.New(seed)
+		// If the system under test crashes the whole process (a panic in one of its own
+		// goroutines cannot be recovered from outside), this line tells the driver which
+		// run it was.
+		fmt.Fprintf(os.Stderr, "VSIM-RUN idx=%d seed=%d\n", idx, seed)
 		res := run(cfg, idx, tp)
 		n++
 		sum.LastIndex = idx
